@@ -110,6 +110,66 @@ def cmdMul (a b n l r : String) : String :=
   | .error .conversion => "M ERR"
   | .error .zeroPower => "PANIC zero power"
 
+partial def sexpr : Tree → String
+  | .tok _ k t => s!"{k.name}:{utf8Len t}"
+  | .node _ k ks => "(" ++ k.name ++ String.join (ks.map fun c => " " ++ sexpr c) ++ ")"
+
+def cmdTree (src : List Char) (unit : Bool) : String :=
+  match (if unit then Grammar.parseUnit src else Grammar.parseRoot src) with
+  | .ok forest => "S" ++ String.join (forest.map fun t => " " ++ sexpr t)
+  | .error e => s!"S ERR {repr e}"
+
+def specTree (src : List Char) : String :=
+  "L" ++ String.join ((Lexer.lex src).map fun t => s!" {t.kind.name}:{t.len}")
+
+def showErr : EvalErr → String
+  | .err k s e => s!"ERR {k.name} {s} {e}"
+  | .panic site => s!"PANIC {site}"
+  | .unsupported w => s!"UNSUPPORTED {w}"
+
+def showResult : Except EvalErr Numeric → String
+  | .ok n => s!"OK {ratStr n.value} {unitCanon n.unit}"
+  | .error e => showErr e
+
+/-- Lookup table supplied by the harness run (`db` lines): phrase ↦ result. -/
+abbrev DbTable := List (List Char × Option Fact)
+
+def cmdQuery (tbl : DbTable) (src : List Char) (describe : Bool) : String :=
+  let db : Db := fun phrase =>
+    match tbl.find? (fun e => e.1 == phrase) with
+    | some (_, some f) => .found f
+    | some (_, none) => .nothing
+    | none => .error
+  match Eval.query { db := db, describe := describe, debug := true } src with
+  | .error e => s!"R TREEERR {repr e}"
+  | .ok (rs, descs) =>
+    let body := " | ".intercalate (rs.map showResult)
+    let d := if describe then
+        " # D" ++ String.join (descs.map fun x => s!" {hexEncode x.phrase}=>{hexEncode x.description}")
+      else ""
+    "R " ++ body ++ d
+
+/-- Phrases the evaluator may look up: SENTENCE nodes and WORD nodes outside UNIT /
+SENTENCE / FN_NAME. -/
+partial def phrasesOf (parent : Syntax) : Tree → List (List Char)
+  | .tok _ k t => if parent == .EOF && k == .WORD then [t] else []
+  | .node i k ks =>
+    let here := if k == .SENTENCE || (k == .WORD && parent != .UNIT && parent != .SENTENCE && parent != .FN_NAME)
+      then [(Tree.node i k ks).text] else []
+    here ++ (ks.flatMap (phrasesOf k))
+
+def cmdPhrases (src : List Char) : String :=
+  match Grammar.parseRoot src with
+  | .ok forest => "P" ++ String.join ((forest.flatMap (phrasesOf .EOF)).map fun p => " " ++ hexEncode p)
+  | .error _ => "P"
+
+def cmdUnit (src : List Char) : String :=
+  match Eval.compoundFromStr src with
+  | .error e => s!"C TREEERR {repr e}"
+  | .ok (.ok c) => s!"C {unitCanon c}"
+  | .ok (.error (.err k _ _)) => s!"C ERR {k.name}"
+  | .ok (.error e) => s!"C {showErr e}"
+
 /-! ### `expr`: spec-side rendering and denotation of a generated expression -/
 open Spec.Arith in
 partial def parseExpr : List String → Option (NExpr × List String)
@@ -175,11 +235,17 @@ def cmdExpr (toks : List String) : String :=
       | .error _ => "ERR"
     s!"E {hexEncode text} {v} {if wfB e then 1 else 0}"
 
-def dispatch (line : String) : String :=
+def dispatch (tbl : DbTable) (line : String) : String :=
   let parts := line.trimAscii.toString.splitOn " "
   match parts with
   | ["lex", h] => cmdLex (hexDecode h) ++ "\t" ++ specLex (hexDecode h)
   | "expr" :: toks => cmdExpr toks
+  | ["tree", h] => cmdTree (hexDecode h) false ++ "\t" ++ specTree (hexDecode h)
+  | ["utree", h] => cmdTree (hexDecode h) true
+  | ["phrases", h] => cmdPhrases (hexDecode h)
+  | ["query", h] => cmdQuery tbl (hexDecode h) false
+  | ["query", h, "describe"] => cmdQuery tbl (hexDecode h) true
+  | ["unit", h] => cmdUnit (hexDecode h)
   | ["unitw", h] => cmdUnitw (hexDecode h)
   | ["factor", a, b, v] => cmdFactor a b v
   | ["mul", a, b, n, l, r] => cmdMul a b n l r
@@ -187,16 +253,30 @@ def dispatch (line : String) : String :=
   | cmd :: _ => s!"? unknown command {cmd}"
   | [] => "?"
 
-partial def loop (h : IO.FS.Stream) (out : IO.FS.Stream) : IO Unit := do
+/-- `db <hexphrase> NONE` or `db <hexphrase> <n/d> <unit> <hexdesc>` extends the lookup table. -/
+def dbLine (parts : List String) : Option (List Char × Option Fact) :=
+  match parts with
+  | ["db", h, "NONE"] => some (hexDecode h, none)
+  | ["db", h, v, u, d] =>
+    some (hexDecode h, some { value := parseRat v, unit := parseUnitCanon u, description := hexDecode d })
+  | _ => none
+
+partial def loop (h : IO.FS.Stream) (out : IO.FS.Stream) (tbl : DbTable) : IO Unit := do
   let line ← h.getLine
   if line.isEmpty then return ()
-  if line.trimAscii.toString.isEmpty then loop h out else
-  out.putStrLn (dispatch line)
-  loop h out
+  let trimmed := line.trimAscii.toString
+  if trimmed.isEmpty then loop h out tbl else
+  match dbLine (trimmed.splitOn " ") with
+  | some e =>
+    out.putStrLn "DB"
+    loop h out (e :: tbl)
+  | none =>
+    out.putStrLn (dispatch tbl line)
+    loop h out tbl
 
 end Driver
 
 def main : IO Unit := do
   let stdin ← IO.getStdin
   let stdout ← IO.getStdout
-  Driver.loop stdin stdout
+  Driver.loop stdin stdout []
